@@ -47,6 +47,12 @@ var pkgDirs = []string{"protocol", "protocol/casper"}
 // tracked locks (canonical identity = <receiver type>.<selector path>)
 var trackedLocks = []string{"Casper.mu", "Chain.cond.L", "TxPool.mtx", "OrphanManage.mtx"}
 
+// leaf locks: taken and released without any other blocking operation in between (CHECKED below,
+// a violation is a fatal error).  Their critical sections are folded into the synchronisation-free
+// regions; every access records which leaf locks are held (lockset), which is what the race
+// predicate of the model uses.  A leaf lock cannot take part in a cyclic wait.
+var leafLocks = []string{"Chain.cond.L", "TxPool.mtx", "OrphanManage.mtx"}
+
 // declared shared fields
 var sharedFields = []string{"Casper.tree", "Chain.bestBlockHeader", "TxPool.pool", "TxPool.utxo", "TxPool.orphans", "TxPool.orphansByPrev", "TxPool.errCache",
 	"OrphanManage.orphan", "OrphanManage.prevOrphans"}
@@ -298,10 +304,25 @@ func (p *program) makeChanCap(e ast.Expr) (int, bool) {
 
 // ------------------------------------------------------------------ raw CFG
 
-type accItem struct {
-	Field string `json:"field"`
+type heldLock struct {
+	Lock  string `json:"lock"`
 	Write bool   `json:"write"`
-	Path  string `json:"path"`
+}
+
+type accItem struct {
+	Field string     `json:"field"`
+	Write bool       `json:"write"`
+	Path  string     `json:"path"`
+	Held  []heldLock `json:"held,omitempty"`
+}
+
+func heldKey(h []heldLock) string {
+	var r []string
+	for _, x := range h {
+		r = append(r, fmt.Sprintf("%s/%v", x.Lock, x.Write))
+	}
+	sort.Strings(r)
+	return strings.Join(r, ",")
 }
 
 type node struct {
@@ -716,11 +737,11 @@ func (b *builder) effects(sc *scope, e ast.Node, write bool, out *[]effect) {
 	case *ast.SelectorExpr:
 		id := b.canon(sc, x)
 		if isTracked(sharedFields, id) {
-			*out = append(*out, effect{kind: "acc", n: &node{kind: "op", act: "acc", accs: []accItem{{id, write, b.pathAt(sc, x)}}, path: b.pathAt(sc, x), fn: sc.fi.key}})
+			*out = append(*out, effect{kind: "acc", n: &node{kind: "op", act: "acc", accs: []accItem{{Field: id, Write: write, Path: b.pathAt(sc, x)}}, path: b.pathAt(sc, x), fn: sc.fi.key}})
 			return
 		}
 		if write && sc.fi.pkg == "protocol/casper" && treeFieldWrites[x.Sel.Name] {
-			*out = append(*out, effect{kind: "acc", n: &node{kind: "op", act: "acc", accs: []accItem{{"Casper.tree", true, b.pathAt(sc, x)}}, path: b.pathAt(sc, x), fn: sc.fi.key}})
+			*out = append(*out, effect{kind: "acc", n: &node{kind: "op", act: "acc", accs: []accItem{{Field: "Casper.tree", Write: true, Path: b.pathAt(sc, x)}}, path: b.pathAt(sc, x), fn: sc.fi.key}})
 		}
 		b.effects(sc, x.X, false, out)
 	case *ast.CallExpr:
@@ -779,7 +800,7 @@ func (b *builder) callEffects(sc *scope, call *ast.CallExpr, out *[]effect) {
 			b.effects(sc, a, false, out)
 		}
 		if f, ok := mutatorCalls[name]; ok {
-			*out = append(*out, effect{kind: "acc", n: &node{kind: "op", act: "acc", accs: []accItem{{f, true, b.pathAt(sc, call)}}, path: b.pathAt(sc, call), fn: sc.fi.key}})
+			*out = append(*out, effect{kind: "acc", n: &node{kind: "op", act: "acc", accs: []accItem{{Field: f, Write: true, Path: b.pathAt(sc, call)}}, path: b.pathAt(sc, call), fn: sc.fi.key}})
 			return
 		}
 	} else {
@@ -1166,6 +1187,7 @@ type OProc struct {
 
 type Output struct {
 	Locks  []string       `json:"locks"`
+	Leaf   []string       `json:"leaf_locks"`
 	GChans []string       `json:"gchans"`
 	GCaps  []int          `json:"gcaps"`
 	MChans []string       `json:"mchans"`
@@ -1175,40 +1197,102 @@ type Output struct {
 	Procs  []OProc        `json:"procs"`
 }
 
-func isBoundary(n *node) bool {
-	return n.kind == "branch" || n.kind == "sel" || n.kind == "halt" || (n.kind == "op" && n.act != "acc")
+func isLeafOp(n *node) bool {
+	if n.kind != "op" {
+		return false
+	}
+	switch n.act {
+	case "lock", "unlock", "rlock", "runlock":
+		return isTracked(leafLocks, n.obj)
+	}
+	return false
 }
 
-// region: from raw node `e`, the accesses and boundary nodes reachable through tau/acc nodes.
-func region(raw []*node, e int) ([]accItem, []int) {
-	seen := map[int]bool{}
+func isBoundary(n *node) bool {
+	return n.kind == "branch" || n.kind == "sel" || n.kind == "halt" || (n.kind == "op" && n.act != "acc" && !isLeafOp(n))
+}
+
+// region: from raw node `e`, the accesses (each with the leaf locks held at that point), the
+// positions of the leaf-lock operations inside, and the boundary nodes reachable through tau / acc /
+// leaf-lock nodes.  Checks the leaf discipline on the way.
+func region(raw []*node, e int) ([]accItem, []string, []int) {
+	type key struct {
+		n    int
+		held string
+	}
+	seen := map[key]bool{}
 	var accs []accItem
 	var exits []int
+	var leafPaths []string
+	exitSeen := map[int]bool{}
 	accSeen := map[string]bool{}
-	var walk func(int)
-	walk = func(i int) {
-		if seen[i] {
+	pathSeen := map[string]bool{}
+	var walk func(int, []heldLock)
+	walk = func(i int, held []heldLock) {
+		k := key{i, heldKey(held)}
+		if seen[k] {
 			return
 		}
-		seen[i] = true
+		seen[k] = true
 		n := raw[i]
 		if isBoundary(n) {
-			exits = append(exits, i)
+			if len(held) > 0 {
+				fatal("%s (%s): reached while holding leaf lock(s) %s: the lock is not a leaf lock", n.path, n.kind+" "+n.act+" "+n.obj, heldKey(held))
+			}
+			if !exitSeen[i] {
+				exitSeen[i] = true
+				exits = append(exits, i)
+			}
+			return
+		}
+		if isLeafOp(n) {
+			if !pathSeen[n.path] {
+				pathSeen[n.path] = true
+				leafPaths = append(leafPaths, n.path)
+			}
+			var nh []heldLock
+			switch n.act {
+			case "lock", "rlock":
+				for _, h := range held {
+					if h.Lock == n.obj {
+						fatal("%s: %s of leaf lock %s while already holding it", n.path, n.act, n.obj)
+					}
+				}
+				nh = append(append(nh, held...), heldLock{n.obj, n.act == "lock"})
+			default:
+				found := false
+				for _, h := range held {
+					if h.Lock == n.obj && h.Write == (n.act == "unlock") && !found {
+						found = true
+						continue
+					}
+					nh = append(nh, h)
+				}
+				if !found {
+					fatal("%s: %s of leaf lock %s which is not held (in that mode) on this path", n.path, n.act, n.obj)
+				}
+			}
+			for _, s := range n.next {
+				walk(s, nh)
+			}
 			return
 		}
 		for _, a := range n.accs {
-			k := fmt.Sprintf("%s|%v|%s", a.Field, a.Write, a.Path)
+			a.Held = append([]heldLock{}, held...)
+			sort.Slice(a.Held, func(x, y int) bool { return a.Held[x].Lock < a.Held[y].Lock })
+			k := fmt.Sprintf("%s|%v|%s|%s", a.Field, a.Write, a.Path, heldKey(a.Held))
 			if !accSeen[k] {
 				accSeen[k] = true
 				accs = append(accs, a)
 			}
 		}
 		for _, s := range n.next {
-			walk(s)
+			walk(s, held)
 		}
 	}
-	walk(e)
+	walk(e, nil)
 	sort.Ints(exits)
+	sort.Strings(leafPaths)
 	sort.Slice(accs, func(i, j int) bool {
 		if accs[i].Field != accs[j].Field {
 			return accs[i].Field < accs[j].Field
@@ -1216,9 +1300,12 @@ func region(raw []*node, e int) ([]accItem, []int) {
 		if accs[i].Write != accs[j].Write {
 			return !accs[i].Write
 		}
-		return accs[i].Path < accs[j].Path
+		if accs[i].Path != accs[j].Path {
+			return accs[i].Path < accs[j].Path
+		}
+		return heldKey(accs[i].Held) < heldKey(accs[j].Held)
 	})
-	return accs, exits
+	return accs, leafPaths, exits
 }
 
 // compress turns the raw graph reachable from entry into dense output nodes; pc 0 is the entry.
@@ -1262,7 +1349,7 @@ func compress(raw []*node, entry int) []ONode {
 	succOf = func(raws []int) []int {
 		set := map[int]bool{}
 		for _, r := range raws {
-			accs, exits := region(raw, r)
+			accs, leafPaths, exits := region(raw, r)
 			if len(accs) == 0 {
 				for _, x := range exits {
 					set[pcOfBoundary(x)] = true
@@ -1275,14 +1362,14 @@ func compress(raw []*node, entry int) []ONode {
 				pc = len(out)
 				regionPC[sig] = pc
 				out = append(out, ONode{PC: pc})
-				accsC, exitsC := accs, exits
+				accsC, exitsC, leafC := accs, exits, leafPaths
 				pending = append(pending, func() {
 					var nx []int
 					for _, x := range exitsC {
 						nx = append(nx, pcOfBoundary(x))
 					}
 					sort.Ints(nx)
-					out[pc] = ONode{PC: pc, Kind: "op", Act: "acc", Accs: accsC, Next: nx, Path: accsC[0].Path}
+					out[pc] = ONode{PC: pc, Kind: "op", Act: "acc", Accs: accsC, Next: nx, Path: accsC[0].Path, Paths: leafC}
 				})
 			}
 			set[pc] = true
@@ -1303,61 +1390,30 @@ func compress(raw []*node, entry int) []ONode {
 		f()
 	}
 	out[0] = ONode{PC: 0, Kind: "op", Act: "tau", Next: first}
-	return out
-}
-
-// canonical string of the sub-graph reachable from pc (ignoring paths), for deduplication
-func canonSub(nodes []ONode, pc int) string {
-	idx := map[int]int{}
-	var sb strings.Builder
-	var walk func(int)
-	ren := func(xs []int) string {
-		var r []string
-		for _, x := range xs {
-			if _, ok := idx[x]; !ok {
-				idx[x] = len(idx)
+	if len(first) == 1 && first[0] != 0 {
+		// the entry is a single node: let it be pc 0 itself (one position less per process)
+		f := first[0]
+		out[0] = out[f]
+		out[0].PC = 0
+		rl := func(xs []int) []int {
+			var r []int
+			for _, x := range xs {
+				if x == f {
+					x = 0
+				}
+				r = append(r, x)
 			}
-			r = append(r, strconv.Itoa(idx[x]))
+			return r
 		}
-		return strings.Join(r, ",")
+		for i := range out {
+			out[i].Next, out[i].Then, out[i].Else = rl(out[i].Next), rl(out[i].Then), rl(out[i].Else)
+			for k := range out[i].Alts {
+				out[i].Alts[k].Next = rl(out[i].Alts[k].Next)
+			}
+		}
+		out = renumber(out)
 	}
-	var order []int
-	seen := map[int]bool{}
-	walk = func(i int) {
-		if seen[i] {
-			return
-		}
-		seen[i] = true
-		order = append(order, i)
-		n := nodes[i]
-		var succ []int
-		succ = append(succ, n.Next...)
-		succ = append(succ, n.Then...)
-		succ = append(succ, n.Else...)
-		for _, a := range n.Alts {
-			succ = append(succ, a.Next...)
-		}
-		for _, s := range succ {
-			walk(s)
-		}
-	}
-	idx[pc] = 0
-	walk(pc)
-	for _, i := range order {
-		n := nodes[i]
-		var accs []string
-		for _, a := range n.Accs {
-			accs = append(accs, fmt.Sprintf("%s/%v", a.Field, a.Write))
-		}
-		sort.Strings(accs)
-		accs = uniq(accs)
-		fmt.Fprintf(&sb, "%d:%s/%s/%s/%s/%v/%d[%s][%s][%s]", idx[i], n.Kind, n.Act, n.Obj, n.Who, accs, n.Label, ren(n.Next), ren(n.Then), ren(n.Else))
-		for _, a := range n.Alts {
-			fmt.Fprintf(&sb, "{%s/%s/%s[%s]}", a.Act, a.Obj, a.Who, ren(a.Next))
-		}
-		sb.WriteString(";")
-	}
-	return sb.String()
+	return out
 }
 
 func uniq(xs []string) []string {
@@ -1370,61 +1426,9 @@ func uniq(xs []string) []string {
 	return r
 }
 
-// dedupe the alternatives of a multi-root process: the entry (pc 0) is a tau with one successor
-// set per root; alternatives with identical sub-graphs are merged (paths of the dropped copies are
-// recorded on the kept nodes).
-func dedupe(nodes []ONode) []ONode {
-	if nodes[0].Act != "tau" {
-		return nodes
-	}
-	keep := map[string]int{}
-	var newNext []int
-	type pair struct{ from, to int }
-	var merges []pair
-	for _, s := range nodes[0].Next {
-		c := canonSub(nodes, s)
-		if k, ok := keep[c]; ok {
-			merges = append(merges, pair{s, k})
-			continue
-		}
-		keep[c] = s
-		newNext = append(newNext, s)
-	}
-	// record paths of merged copies (parallel walk)
-	for _, m := range merges {
-		seen := map[int]bool{}
-		var walk func(a, b int)
-		walk = func(a, b int) {
-			if seen[a] {
-				return
-			}
-			seen[a] = true
-			if nodes[a].Path != "" {
-				nodes[b].Paths = append(nodes[b].Paths, nodes[a].Path)
-			}
-			for _, ac := range nodes[a].Accs {
-				nodes[b].Accs = append(nodes[b].Accs, ac)
-			}
-			sa := allSucc(nodes[a])
-			sb := allSucc(nodes[b])
-			for _, x := range sa {
-				cx := canonSub(nodes, x)
-				for _, y := range sb {
-					if canonSub(nodes, y) == cx {
-						walk(x, y)
-						break
-					}
-				}
-			}
-		}
-		walk(m.from, m.to)
-	}
-	nodes[0].Next = newNext
-	return renumber(nodes)
-}
-
-// minimise merges nodes that are identical (same operation, same source path, same successors),
-// repeatedly: the per-return copies of deferred unlocks collapse into one node.
+// minimise merges nodes that behave identically (same operation, same successors), repeatedly:
+// the per-return copies of deferred unlocks collapse into one node, and so do reader entry points
+// with the same shape.  Source paths of merged nodes are kept on the surviving node (Paths, Accs).
 func minimise(nodes []ONode) []ONode {
 	for {
 		sig := map[string]int{}
@@ -1436,16 +1440,34 @@ func minimise(nodes []ONode) []ONode {
 			}
 			var accs []string
 			for _, a := range n.Accs {
-				accs = append(accs, fmt.Sprintf("%s/%v/%s", a.Field, a.Write, a.Path))
+				accs = append(accs, fmt.Sprintf("%s/%v/%s", a.Field, a.Write, heldKey(a.Held)))
 			}
 			sort.Strings(accs)
-			k := fmt.Sprint(n.Kind, n.Act, n.Obj, n.Who, accs, n.Next, n.Label, n.Then, n.Else, n.Path, n.Paths)
+			accs = uniq(accs)
+			k := fmt.Sprint(n.Kind, "|", n.Act, "|", n.Obj, "|", n.Who, "|", accs, n.Next, n.Label, n.Then, n.Else)
 			for _, a := range n.Alts {
 				k += fmt.Sprint(a.Act, a.Obj, a.Who, a.Next)
 			}
 			if j, ok := sig[k]; ok {
 				ren[i] = j
 				changed = true
+				rep := &nodes[j]
+				for _, p := range append([]string{n.Path}, n.Paths...) {
+					if p != "" && p != rep.Path && !isTracked(rep.Paths, p) {
+						rep.Paths = append(rep.Paths, p)
+					}
+				}
+				for _, a := range n.Accs {
+					dup := false
+					for _, b := range rep.Accs {
+						if a.Field == b.Field && a.Write == b.Write && a.Path == b.Path && heldKey(a.Held) == heldKey(b.Held) {
+							dup = true
+						}
+					}
+					if !dup {
+						rep.Accs = append(rep.Accs, a)
+					}
+				}
 			} else {
 				sig[k] = i
 			}
@@ -1538,7 +1560,12 @@ func allSucc(n ONode) []int {
 
 func build(repo string) *Output {
 	p := load(repo)
-	out := &Output{Locks: trackedLocks, Fields: sharedFields, Labels: map[string]int{}}
+	out := &Output{Leaf: leafLocks, Fields: sharedFields, Labels: map[string]int{}}
+	for _, l := range trackedLocks {
+		if !isTracked(leafLocks, l) {
+			out.Locks = append(out.Locks, l)
+		}
+	}
 	for _, r := range labelled {
 		out.Labels[r.name] = r.label
 	}
@@ -1571,10 +1598,6 @@ func build(repo string) *Output {
 			entry = b.tau(entries...)
 		}
 		nodes := minimise(compress(b.nodes, entry))
-		if len(entries) > 1 {
-			nodes = dedupe(nodes)
-		}
-		nodes = minimise(nodes)
 		for _, n := range nodes {
 			if n.Obj != "" && (strings.HasPrefix(n.Act, "send") || strings.HasPrefix(n.Act, "recv")) {
 				used[n.Obj] = true
@@ -1655,7 +1678,11 @@ func (o *Output) coqAct(act, obj, who string, accs []accItem) string {
 		set := map[string]bool{}
 		var items []string
 		for _, a := range accs {
-			s := fmt.Sprintf("(%d%%N, %v)", indexOf(o.Fields, a.Field), a.Write)
+			var hs []string
+			for _, h := range a.Held {
+				hs = append(hs, fmt.Sprintf("(%d%%N, %v)", indexOf(o.Leaf, h.Lock), h.Write))
+			}
+			s := fmt.Sprintf("(%d%%N, %v, [%s])", indexOf(o.Fields, a.Field), a.Write, strings.Join(hs, "; "))
 			if !set[s] {
 				set[s] = true
 				items = append(items, s)
@@ -1674,6 +1701,9 @@ func (o *Output) coq() string {
 	sb.WriteString("From Coq Require Import NArith List.\nFrom C37 Require Import Lts.\nImport ListNotations.\nOpen Scope N_scope.\n\n")
 	for i, l := range o.Locks {
 		fmt.Fprintf(&sb, "(* lock %d = %s *)\n", i, l)
+	}
+	for i, l := range o.Leaf {
+		fmt.Fprintf(&sb, "(* leaf lock %d = %s *)\n", i, l)
 	}
 	for i, c := range o.GChans {
 		fmt.Fprintf(&sb, "(* global channel %d = %s, capacity %d *)\n", i, c, o.GCaps[i])
